@@ -75,7 +75,7 @@ func (c *Client) cur() int {
 	}
 	l := c.lane()
 	if l < 0 || l >= MaxLanes {
-		return MaxLanes - 1
+		return -1 // outside any task: the event is dropped
 	}
 	return l
 }
@@ -96,17 +96,26 @@ type logger struct {
 //go:norace
 func (l *logger) Log(keyID uint32, numBytes int) {
 	i := l.c.cur()
+	if i < 0 {
+		return
+	}
 	l.c.Events[i] = append(l.c.Events[i], Event{Primitive: l.prim, API: l.api, KeyID: keyID, NumBytes: numBytes})
 }
 
 //go:norace
 func (l *logger) LogFailure() {
 	i := l.c.cur()
+	if i < 0 {
+		return
+	}
 	l.c.Events[i] = append(l.c.Events[i], Event{Primitive: l.prim, API: l.api, Failure: true})
 }
 
 //go:norace
 func (l *logger) LogKeyExport(keyID uint32) {
 	i := l.c.cur()
+	if i < 0 {
+		return
+	}
 	l.c.Events[i] = append(l.c.Events[i], Event{Primitive: l.prim, API: l.api + "/export", KeyID: keyID})
 }
